@@ -1,0 +1,23 @@
+//go:build verif
+
+package postprocessor
+
+// Contracts for govc (see /verif/DESIGN.md). Comment-only file: it adds no code.
+
+// postprocess / closeBodies: the stage functions, opaque at worker level.
+//@ func postprocess
+//@   opaque
+//@   modifies models.Item::*, models.URL::*
+//@ func closeBodies
+//@   opaque
+//@   modifies models.URL::*
+
+// Worker gauge discipline (C17): the worker contributes +1 to its gauge while it is alive and
+// its net contribution is 0 once it has returned, on every exit path.
+//@ func (*postprocessor).worker
+//@   property C17
+//@   mode math
+//@   attr noreach stats.PostprocessorRoutinesIncr,stats.PostprocessorRoutinesDecr
+//@   requires stats.globalStats != nil && stats.globalStats.PostprocessorRoutines != nil
+//@   loop for invariant [gauge-live] @C17 adds(stats.globalStats.PostprocessorRoutines.count) == old(adds(stats.globalStats.PostprocessorRoutines.count)) + 1 && stats.globalStats != nil && stats.globalStats.PostprocessorRoutines != nil // C17: worker gauges equal the number of live workers
+//@   ensures [gauge-balanced] @C17 adds(stats.globalStats.PostprocessorRoutines.count) == old(adds(stats.globalStats.PostprocessorRoutines.count)) // C17: zero after stop
